@@ -132,3 +132,81 @@ Proof.
   intros H. unfold store_states, load_states. cbn [app]. rewrite Z.eqb_refl. cbn [negb].
   destruct (sig_eqb (signature sp) (signature sp')) eqn:E; [|reflexivity]. apply sig_eqb_eq in E. congruence.
 Qed.
+
+(* ---- PlannerData start / goal bookkeeping: binary search over a vector that must be kept sorted ---- *)
+Definition sorted_nth (v : list nat) : Prop := forall i j, (i <= j < length v)%nat -> (nth i v 0 <= nth j v 0)%nat.
+
+Lemma lower_bound_spec : forall fuel v first count x, sorted_nth v -> (count <= fuel)%nat -> (first + count <= length v)%nat ->
+  let r := lower_bound fuel v first count x in
+  (first <= r <= first + count)%nat /\ (forall i, (first <= i < r)%nat -> (nth i v 0 < x)%nat) /\
+  (forall i, (r <= i < first + count)%nat -> (x <= nth i v 0)%nat).
+Proof.
+  induction fuel as [|f IH]; intros v first count x Hsrt Hf Hl; cbn [lower_bound].
+  - assert (count = 0)%nat by lia. subst. split; [lia|]. split; intros; lia.
+  - destruct (Nat.eqb_spec count 0) as [->|N]; [split; [lia|]; split; intros; lia|].
+    set (step := Nat.div count 2). assert (Hs : (step < count)%nat) by (apply Nat.div_lt; lia).
+    destruct (Nat.ltb_spec (nth (first + step) v 0) x) as [L|L].
+    + destruct (IH v (S (first + step)) (count - step - 1)%nat x Hsrt ltac:(lia) ltac:(lia)) as (A & B & C).
+      split; [lia|]. split.
+      * intros i Hi. destruct (Nat.le_gt_cases i (first + step)) as [G|G]; [|apply B; lia].
+        pose proof (Hsrt i (first + step)%nat ltac:(lia)). lia.
+      * intros i Hi. apply C. lia.
+    + destruct (IH v first step x Hsrt ltac:(lia) ltac:(lia)) as (A & B & C).
+      split; [lia|]. split; [exact B|].
+      intros i Hi. destruct (Nat.lt_ge_cases i (first + step)) as [G|G]; [apply C; lia|].
+      pose proof (Hsrt (first + step)%nat i ltac:(lia)). lia.
+Qed.
+
+Theorem binary_search_correct v x : sorted_nth v -> (binary_search v x = true <-> In x v).
+Proof.
+  intros Hsrt. unfold binary_search.
+  destruct (lower_bound_spec (S (length v)) v 0 (length v) x Hsrt ltac:(lia) ltac:(lia)) as (A & B & C).
+  set (r := lower_bound (S (length v)) v 0 (length v) x) in *. split.
+  - intros H. apply andb_true_iff in H. destruct H as (H1 & H2). apply Nat.ltb_lt in H1. apply Nat.eqb_eq in H2.
+    rewrite <- H2. apply nth_In. exact H1.
+  - intros H. destruct (In_nth v x 0%nat H) as (j & Hj & E).
+    assert (Hrj : (r <= j)%nat).
+    { destruct (Nat.le_gt_cases r j) as [G|G]; [exact G|]. specialize (B j ltac:(lia)). lia. }
+    apply andb_true_iff. split; [apply Nat.ltb_lt; lia|]. apply Nat.eqb_eq.
+    pose proof (C r ltac:(lia)). pose proof (Hsrt r j ltac:(lia)). lia.
+Qed.
+
+Lemma insert_sorted_in x l y : In y (insert_sorted x l) <-> y = x \/ In y l.
+Proof. induction l as [|a t IH]; simpl; [intuition|]. destruct (x <=? a)%nat; simpl; [intuition|]. rewrite IH. intuition. Qed.
+Lemma sort_nat_in l y : In y (sort_nat l) <-> In y l.
+Proof. induction l as [|a t IH]; simpl; [tauto|]. rewrite insert_sorted_in, IH. split; intros [H|H]; auto. Qed.
+Lemma sorted_nth_cons a l : sorted_nth l -> (forall y, In y l -> (a <= y)%nat) -> sorted_nth (a :: l).
+Proof.
+  intros Hsrt H i j Hij. destruct i as [|i], j as [|j]; simpl in *; try lia.
+  - apply H. apply nth_In. lia.
+  - apply Hsrt. lia.
+Qed.
+Lemma sorted_nth_tail a l : sorted_nth (a :: l) -> sorted_nth l /\ (forall y, In y l -> (a <= y)%nat).
+Proof.
+  intros Hsrt. split.
+  - intros i j Hij. apply (Hsrt (S i) (S j)). simpl. lia.
+  - intros y Hy. destruct (In_nth l y 0%nat Hy) as (j & Hj & <-). apply (Hsrt 0%nat (S j)). simpl. lia.
+Qed.
+Lemma insert_sorted_sorted x l : sorted_nth l -> sorted_nth (insert_sorted x l).
+Proof.
+  induction l as [|a t IH]; intros Hsrt; simpl.
+  - intros i j Hij. simpl in Hij. assert (i = 0 /\ j = 0)%nat as (-> & ->) by lia. lia.
+  - destruct (Nat.leb_spec x a) as [L|L].
+    + apply sorted_nth_cons; [exact Hsrt|]. intros y [<-|Hy]; [exact L|]. destruct (sorted_nth_tail a t Hsrt) as (_ & H). specialize (H y Hy). lia.
+    + destruct (sorted_nth_tail a t Hsrt) as (St & H). apply sorted_nth_cons; [apply IH; exact St|].
+      intros y Hy. apply insert_sorted_in in Hy. destruct Hy as [->|Hy]; [lia|apply H; exact Hy].
+Qed.
+Lemma sort_nat_sorted l : sorted_nth (sort_nat l).
+Proof. induction l as [|a t IH]; simpl; [intros i j H; simpl in H; lia|]. apply insert_sorted_sorted. exact IH. Qed.
+
+(* marking a goal keeps the goal vector sorted and makes exactly that vertex (in addition) a goal *)
+Theorem mark_goal_correct i g : sorted_nth (goals g) ->
+  sorted_nth (goals (mark_goal i g)) /\
+  (forall j, binary_search (goals (mark_goal i g)) j = true <-> j = i \/ binary_search (goals g) j = true) /\
+  starts (mark_goal i g) = starts g.
+Proof.
+  intros Hsrt. unfold mark_goal. destruct (binary_search (goals g) i) eqn:E.
+  - split; [exact Hsrt|]. split; [|reflexivity]. intros j. split; [auto|]. intros [->|H]; auto.
+  - cbn [goals starts]. split; [apply sort_nat_sorted|]. split; [|reflexivity]. intros j.
+    rewrite (binary_search_correct _ j (sort_nat_sorted _)), sort_nat_in, in_app_iff, (binary_search_correct _ j Hsrt). simpl. intuition.
+Qed.
